@@ -1,6 +1,7 @@
 """C06 — a run stops exactly at the first non-OK status or at the timeout, and says which."""
 import re
 from props.common_prog import judge_prog
+from props import C19
 
 THEOREM_MODULES = ["Hcl.Theorems.C06", "Hcl.Tie.Run", "Hcl.Tie.PinsRun"]
 THEOREMS = {"Hcl.Tie.Run": ["Tie.Run.doneText", "Tie.Run.statuses", "Tie.Run.defaultTimeout"], "Hcl.Theorems.C06": ["C06_accepted", "runLoop_sound", "C06_terminates", "C06_stop", "C06_within_timeout", "C06_report", "stepCycle_cycle", "runN_cycle"],
@@ -51,4 +52,6 @@ def streams(tier, seed):
     q = tier == "quick"
     return [{"name": "run", "stream": "run", "count": 1500 if q else 60000, "judge": judge},
             {"name": "prog-status", "stream": "prog", "count": 200 if q else 5000, "extra": ("status",),
-             "judge": lambda r, i, m, s: judge_prog(r, i, m, s)}]
+             "judge": lambda r, i, m, s: judge_prog(r, i, m, s)},
+            # the TIMEOUT argument of the command line (0, 1, ..., 2^32-1, absent): the real binary, as in C19
+            {"name": "cli", "stream": "cli", "count": 400 if q else 10000, "pygen": C19.pygen, "judge": C19.judge}]
